@@ -35,6 +35,100 @@ type ConcCase struct {
 	MissZ  bool     `json:"missz"` // dir: the child shard holding names 5..8 is unavailable
 }
 
+// runConcBulk: a directory of cc.N entries (plain through the auto-selecting builder when Fanout is 0, else sharded)
+// shared by G goroutines; each looks up every member and as many non-members, in its own rotation, on a node that
+// is fresh (cold) for every repetition.  Compared here, reported as one summarised line per repetition.
+func runConcBulk(cc *ConcCase, tr *Tr) error {
+	n := cc.N
+	u := make([]string, 2*n)
+	ids := make([]int, n)
+	lk := make([]int, n)
+	for i := range u {
+		u[i] = fmt.Sprintf("bulk-entry-%04d.dat", i)
+	}
+	for i := 0; i < n; i++ {
+		ids[i], lk[i] = i+1, (i+1)%nTargets
+	}
+	bld := "dir"
+	if cc.Fanout > 0 {
+		bld = "sharded"
+	}
+	st := NewStore()
+	targets := putTargets(st)
+	dc := &DirCase{Builder: bld, Fanout: cc.Fanout, Universe: u, Entries: ids, Links: lk}
+	root, _, err := buildDir(st, dc, targets)
+	if err != nil {
+		return err
+	}
+	G := len(cc.Ops)
+	for rep := 0; rep < cc.Reps; rep++ {
+		tr.Emit(M{"ev": "reset", "case": caseString(cc)})
+		ls := st.LinkSystem()
+		rootNode, err := loadNode(ls, root)
+		if err != nil {
+			return err
+		}
+		node, err := unixfsnode.Reify(ipld.LinkContext{Ctx: context.Background()}, rootNode, ls)
+		if err != nil {
+			return err
+		}
+		if cc.Warm == "warm" {
+			node.Length()
+			node.LookupByString(u[2*n-1]) // a lookup of an absent name has happened before the goroutines start
+		}
+		wrongHit := make([]int, G)
+		wrongMiss := make([]int, G)
+		panics := make([]int, G)
+		start := make(chan struct{})
+		var wg sync.WaitGroup
+		for g := 0; g < G; g++ {
+			wg.Add(1)
+			go func(g int) {
+				defer wg.Done()
+				<-start
+				for j := 0; j < 2*n; j++ {
+					i := (j + g*(2*n/G)) % (2 * n) // every goroutine starts somewhere else
+					if g%2 == 1 {
+						i = (i/2)%n + (i%2)*n // odd goroutines alternate members and non-members
+					}
+					if pm := guard(func() {
+						nd, err := node.LookupByString(u[i])
+						if i < n {
+							var l datamodel.Link
+							if err == nil {
+								l, err = nd.AsLink()
+							}
+							if err != nil || !l.(cidlink.Link).Cid.Equals(targets[lk[i]]) {
+								wrongHit[g]++
+							}
+						} else if err == nil {
+							wrongMiss[g]++
+						}
+					}); pm != nil {
+						panics[g]++
+					}
+				}
+			}(g)
+		}
+		close(start)
+		wg.Wait()
+		sum := func(xs []int) (t int) {
+			for _, x := range xs {
+				t += x
+			}
+			return
+		}
+		e := "nil"
+		if sum(panics) > 0 {
+			e = "panic"
+		}
+		tr.Emit(M{"ev": "big", "n": n, "builder": bld, "estimate": 0, "e": e, "sharded": bld == "sharded",
+			"lookupOK": sum(wrongHit) == 0, "missOK": sum(wrongMiss) == 0, "iterOK": true, "lenOK": node.Length() == int64(n),
+			"wrongHits": sum(wrongHit), "wrongMisses": sum(wrongMiss)})
+	}
+	return nil
+}
+
 type evbuf struct{ evs []M }
 
 func (e *evbuf) add(m M) { e.evs = append(e.evs, m) }
@@ -336,6 +430,9 @@ func init() {
 		if cc.What == "file" {
 			return runConcFile(&cc, tr)
 		}
+		if cc.What == "bulk" {
+			return runConcBulk(&cc, tr)
+		}
 		return runConcDir(&cc, tr)
 	}
 	cmds["conc-gen"] = func(args []string) error {
@@ -402,6 +499,19 @@ func init() {
 				Ops: []string{"lookupZ5", "lookupZ6", "lookupZ7", "lookupZ8", "lookupX", "iterate", "lookupZ5", "lookupZ6"}, Reps: *reps * 2, Yield: true, MissZ: true}
 			if err := runConcDir(cc, tr); err != nil {
 				return err
+			}
+		}
+		// many goroutines looking up members and non-members of larger directories (plain with 48 and 300 entries,
+		// sharded with 300 and 1500 entries), cold and after a first lookup of an absent name
+		if *what != "file" {
+			for _, nf := range [][2]int{{48, 0}, {300, 0}, {300, 16}, {1500, 256}} {
+				for _, warm := range []string{"cold", "warm"} {
+					cc := &ConcCase{Fam: "conc", ID: fmt.Sprintf("conc-bulk-%d-%d-%s", nf[0], nf[1], warm), What: "bulk", N: nf[0], Fanout: nf[1], Warm: warm,
+						Ops: make([]string, 8), Reps: *reps, Yield: true}
+					if err := runConcBulk(cc, tr); err != nil {
+						return err
+					}
+				}
 			}
 		}
 		// files: separate readers and AsBytes on one shared multi-block node
